@@ -81,7 +81,9 @@ def gen_flow(rng):
         for point in rng.sample(["id_token", "userinfo"], rng.randint(1, 2)):
             claims[point] = {a: rng.choice(SPECS) for a in rng.sample(ATTRS + ["birthdate"], rng.randint(1, 3))}
     return {"client": rng.choice(FLOW_CLIENTS), "rt": rng.choice(["code", "code", "code", "id_token", "code id_token", "id_token token", "code id_token token"]),
-            "scope": scope, "claims": claims, "intro": rng.sample(["owner", "outsider", "rs"], 3)}
+            "scope": scope, "claims": claims, "intro": rng.sample(["owner", "outsider", "rs"], 3),
+            # the user logs out from this client afterwards (the provider lives on: later flows log in again, and out again)
+            "logout": rng.random() < 0.35}
 
 
 def cases(rng, tier):
@@ -134,6 +136,23 @@ def run_flow(s, f):
                 out["introspection"] = _user_attrs(i)
             else:
                 out["introspection_" + who] = {"active": bool(i.get("active")), "attrs": _user_attrs(i), "sub": "sub" in i}
+        if f.get("logout"):
+            sid = ctx.session_manager.get_session_info_by_token(at, handler_key="access_token")["branch_id"]
+            s.get_endpoint("session").logout_from_client(sid)
+            gone = {}
+            try:
+                pr = ui.parse_request({}, http_info={"headers": {"authorization": "Bearer " + at}})
+                r2 = ui.process_request(pr) if "error" not in pr else pr
+                ra = r2.get("response_args", {}) if isinstance(r2, dict) else {}
+                gone["userinfo"] = _user_attrs(ra) + (["sub"] if "sub" in ra else [])
+            except Exception:
+                gone["userinfo"] = []
+            try:
+                i2 = it.process_request(it.parse_request({"token": at, "client_id": cid, "client_secret": ctx.cdb[cid]["client_secret"]}))["response_args"]
+                gone["introspection"] = _user_attrs(i2) + (["sub"] if "sub" in i2 else []) + (["active"] if i2.get("active") else [])
+            except Exception:
+                gone["introspection"] = []
+            out["after_logout"] = gone
     except Exception as e:
         out["exc"] = type(e).__name__ + ":" + str(e)[:100]
     return out
@@ -264,6 +283,9 @@ def oracle(c, obs):
             extra = set(o[point]) - permitted
             if extra:
                 v.append({"cls": "released-beyond-permitted", "point": point, "extra": sorted(extra), "rt": f["rt"]})
+        al = o.get("after_logout")
+        if al and (al["userinfo"] or al["introspection"]):
+            v.append({"cls": "released-for-an-invalid-token", "after": "logout", "released": al, "client": f["client"]})
         x = o.get("introspection_outsider")
         if x and (x["active"] or x["attrs"] or x["sub"]):
             v.append({"cls": "released-outside-audience", "got": x, "order": f.get("intro")})
